@@ -9,7 +9,8 @@ from .. import core
 from ..core import SKIP
 
 ID = "C08"
-RULE = ("exhaustive: every multiset of <= 3 half-open intervals on contigs of size 1..S (quick S<=4, thorough S<=6) for "
+RULE = ("(v3: every interval argument is byte-compared with a copy taken before the call; multi-call sequences on one object; "
+        "jaccard_all_vs_all with 3-5 sets) exhaustive: every multiset of <= 3 half-open intervals on contigs of size 1..S (quick S<=4, thorough S<=6) for "
         "pileup / event pileup / mask / merge (every distance 0..S) ; every pair of multisets of <= 2 intervals (quick S<=4, "
         "thorough S<=6) for count_overlap / intersect / unique_intersect / contingency / Jaccard / Forbes; sort: every list of "
         "<= 3 records over 2 chromosomes x 2 starts x 2 stops x 3 entry paths; clip / extend_to_size: every start, stop in -2..S+2, "
@@ -18,7 +19,7 @@ RULE = ("exhaustive: every multiset of <= 3 half-open intervals on contigs of si
         "clip/extend: the result differs from the input)")
 EXHAUSTIVE = {"quick": True, "thorough": True}
 PARALLEL = 16
-MODEL_OPS = {"pileup", "pileup_events", "mask", "merge", "sort", "count_overlap", "intersect", "unique_intersect",
+MODEL_OPS = {"seq", "jaccard_matrix", "pileup", "pileup_events", "mask", "merge", "sort", "count_overlap", "intersect", "unique_intersect",
              "contingency", "jaccard", "forbes", "geo_jaccard", "clip", "geo_clip", "extend", "geo_extend"}
 ASSUMPTIONS = [
     "intervals are 0 <= start <= stop <= size (merge, count_overlap, intersect, Forbes: start < stop); merge input is sorted by start (the code asserts it)",
@@ -279,6 +280,11 @@ def cases(tier, rng):
             yield {"op": "mask", "iv": ms, "size": S}
             for d in range(0, S + 1):
                 yield {"op": "merge", "iv": sorted(ms), "d": d, "size": S}
+    # several calls on one object: merge with distances in a row (d > 0 on non-nested input included), then pileup, mask, sort
+    for S in range(2, (6 if big else 5) + 1):
+        for ms in _multisets(S, 3 if big or S <= 4 else 2):
+            if ms and (big or S <= 4 or rng.random() < 0.5):
+                yield {"op": "seq", "iv": sorted(ms), "size": S, "ds": list(range(0, min(S, 5) + 1))}
     # with empty intervals (start == stop) for the per-base ops
     for S in range(1, 4 if big else 3):
         for ms in _multisets(S, 3 if big else 2, empties=True):
@@ -317,6 +323,28 @@ def cases(tier, rng):
             if op in ("count_overlap", "intersect") and not (_disjoint(A) and _disjoint(B)):
                 continue
             yield {"op": op, "a": A, "b": B, "size": S}
+    # Jaccard / Forbes on >= 2 contigs where one set is empty on one contig
+    for S in (2, 3):
+        for A in _multisets(S, 2):
+            for B in _multisets(S, 1):
+                if A and B:
+                    for ch in ([{"size": S, "a": sorted(A), "b": []}, {"size": S, "a": [], "b": sorted(B)}, {"size": 2, "a": [[0, 1]], "b": [[0, 2]]}],
+                               [{"size": S, "a": sorted(A), "b": sorted(B)}, {"size": 3, "a": [], "b": [[1, 2]]}]):
+                        for op in ("jaccard", "forbes", "geo_jaccard"):
+                            yield {"op": op, "chroms": ch}
+    # Geometry.jaccard_all_vs_all with 3-5 sets of different covered sizes
+    for _ in range(1200 if big else 150):
+        sizes = [rng.choice([2, 3, 5, 8]) for _ in range(rng.choice([1, 2, 3]))]
+        sets = []
+        for k in range(rng.choice([3, 3, 4, 5])):
+            st = []
+            for c, z in enumerate(sizes):
+                for a, b in _rand_ivs(rng, z, rng.choice([0, 1, 1, 2, 3])):
+                    st.append([c, a, b])
+            if not st:
+                st = [[0, 0, 1 + k % sizes[0]]]
+            sets.append(sorted(st))
+        yield {"op": "jaccard_matrix", "sizes": sizes, "sets": sets}
     # a few nested / duplicated operands for the two restricted functions (outside the domain: recorded as skipped)
     for A, B in [([[0, 3], [1, 2]], [[0, 1]]), ([[0, 2], [0, 2]], [[1, 3]]), ([[0, 1]], [[0, 2], [1, 3]])]:
         yield {"op": "count_overlap", "a": A, "b": B, "size": 3}
@@ -382,6 +410,10 @@ def cases(tier, rng):
         # Geometry.get_mask / get_pileup on several chromosomes (implementation vs per-base oracle)
         srt = sorted(rows)
         yield {"op": rng.choice(["geo_mask", "geo_pileup"]), "chrom_sizes": sizes, "rows": [list(r) for r in srt]}
+        if all(r[1] < r[2] for r in srt):
+            yield {"op": "geo_seq", "chrom_sizes": sizes, "rows": [list(r) for r in srt], "ds": [0, 1, 3, 0, 2]}
+        ms = sorted(_rand_ivs(rng, size, rng.choice([2, 3, 5, 8])))
+        yield {"op": "seq", "iv": ms, "size": size, "ds": [rng.choice([0, 1, 2, 3, size]) for _ in range(4)]}
 
 
 def _touchy(ivl, size):
@@ -404,16 +436,46 @@ def nontrivial(c):
         return any(s < 0 or e > z for s, e, z in zip(c["start"], c["stop"], c["sizes"]))
     if op in ("extend", "geo_extend"):
         return len(c["start"]) > 0
-    if op in ("geo_mask", "geo_pileup"):
+    if op in ("geo_mask", "geo_pileup", "geo_seq"):
         return len(c["rows"]) > 0
+    if op == "seq":
+        return len(c["iv"]) >= 1 and any(d > 0 for d in c["ds"])
+    if op == "jaccard_matrix":
+        return len(c["sets"]) >= 3
     return True
 
 
 # ------------------------------------------------------------------ implementation
 
+_SNAP = []
+
+
+def _snap(x):
+    """remember an argument object and a byte copy of its numeric columns (checked after the call)"""
+    cols = {}
+    for name in ("start", "stop", "strand"):
+        if hasattr(x, name):
+            a = getattr(x, name)
+            a = a.raw() if hasattr(a, "raw") else a
+            cols[name] = np.array(a, copy=True)
+    _SNAP.append((x, cols))
+    return x
+
+
+def _mutated():
+    out = []
+    for x, cols in _SNAP:
+        for name, before in cols.items():
+            a = getattr(x, name)
+            a = np.asarray(a.raw() if hasattr(a, "raw") else a)
+            if a.shape != before.shape or a.dtype != before.dtype or a.tobytes() != before.tobytes():
+                out.append(name)
+    return sorted(set(out))
+
+
 def _iv(rows, chrom="chr1"):
     m = _mods()
-    return m["Interval"]([chrom] * len(rows), np.array([r[0] for r in rows], dtype=int), np.array([r[1] for r in rows], dtype=int))
+    return _snap(m["Interval"]([chrom] * len(rows), np.array([r[0] for r in rows], dtype=int), np.array([r[1] for r in rows], dtype=int)))
 
 
 def _multi(chroms, key):
@@ -424,7 +486,7 @@ def _multi(chroms, key):
             names.append(f"chr{i + 1}")
             st.append(a)
             sp.append(b)
-    return m["Interval"](names, np.array(st, dtype=int), np.array(sp, dtype=int))
+    return _snap(m["Interval"](names, np.array(st, dtype=int), np.array(sp, dtype=int)))
 
 
 def _pairs(x):
@@ -445,10 +507,51 @@ def _rle(r, conv):
 
 
 def impl(c):
+    """the observation of the real call; if the call changed any of its interval arguments (start / stop / strand
+    columns compared byte for byte with a copy taken before the call) that is reported instead"""
+    del _SNAP[:]
+    out = _impl_raw(c)
+    mut = _mutated()
+    del _SNAP[:]
+    if mut and isinstance(out, dict):
+        return dict(out, mutated_arguments=mut)
+    return out
+
+
+def _impl_raw(c):
     m = _mods()
     ar, iv = m["ar"], m["iv"]
     op = c["op"]
     try:
+        if op == "seq":
+            x = _iv(c["iv"], chrom="a")
+            merges = [_pairs(ar.merge_intervals(x, distance=d)) for d in c["ds"]]
+            pile = [int(v) for v in ar.get_pileup(x, c["size"]).to_array().tolist()]
+            mask = [bool(v) for v in ar.get_boolean_mask(x, c["size"]).to_array().tolist()]
+            srt = ar.sort_intervals(x)
+            return {"merges": merges, "pileup": pile, "mask": mask,
+                    "sorted": [[0, int(a), int(b)] for a, b in zip(srt.start.tolist(), srt.stop.tolist())]}
+        if op == "geo_seq":
+            sizes = {f"chr{i + 1}": z for i, z in enumerate(c["chrom_sizes"])}
+            rows = c["rows"]
+            x = _snap(m["Interval"]([f"chr{r[0] + 1}" for r in rows], np.array([r[1] for r in rows], dtype=int),
+                                    np.array([r[2] for r in rows], dtype=int)))
+            geo = m["Geometry"](sizes)
+            names = list(sizes)
+            merges = []
+            for d in c["ds"]:
+                r = geo.merge_intervals(x, d)
+                merges.append([[names.index(n), int(a), int(b)] for n, a, b in zip(r.chromosome.tolist(), r.start.tolist(), r.stop.tolist())])
+            dp, dm = geo.get_pileup(x).to_dict(), geo.get_mask(x).to_dict()
+            return {"merges": merges, "pileup": [[int(v) for v in dp[n].tolist()] for n in names],
+                    "mask": [[bool(v) for v in dm[n].tolist()] for n in names]}
+        if op == "jaccard_matrix":
+            sizes = {f"chr{i + 1}": z for i, z in enumerate(c["sizes"])}
+            sets = [_snap(m["Interval"]([f"chr{r[0] + 1}" for r in st], np.array([r[1] for r in st], dtype=int),
+                                        np.array([r[2] for r in st], dtype=int))) for st in c["sets"]]
+            with np.errstate(all="ignore"):
+                mat = m["Geometry"](sizes).jaccard_all_vs_all(sets)
+            return {"bits": [[_bits(v) for v in row] for row in np.asarray(mat).tolist()]}
         if op == "pileup":
             return {"dense": [int(x) for x in ar.get_pileup(_iv(c["iv"]), c["size"]).to_array().tolist()]}
         if op == "pileup_events":
@@ -464,11 +567,11 @@ def impl(c):
             st, sp = np.array([r[1] for r in recs], dtype=int), np.array([r[2] for r in recs], dtype=int)
             if path == "enc":
                 enc = m["StringEncoding"](names)
-                x = m["Interval"](m["as_encoded_array"](ch, enc) if ch else m["as_encoded_array"]([], enc), st, sp)
+                x = _snap(m["Interval"](m["as_encoded_array"](ch, enc) if ch else m["as_encoded_array"]([], enc), st, sp))
                 r = ar.sort_intervals(x)
                 codes = [int(v) for v in np.asarray(r.chromosome.raw()).ravel().tolist()]
             else:
-                x = m["Interval"](ch, st, sp)
+                x = _snap(m["Interval"](ch, st, sp))
                 if path == "plain":
                     r = ar.sort_intervals(x)
                 elif path == "human":
@@ -498,8 +601,8 @@ def impl(c):
         if op in ("geo_mask", "geo_pileup"):
             sizes = {f"chr{i + 1}": z for i, z in enumerate(c["chrom_sizes"])}
             rows = c["rows"]
-            x = m["Interval"]([f"chr{r[0] + 1}" for r in rows], np.array([r[1] for r in rows], dtype=int),
-                              np.array([r[2] for r in rows], dtype=int))
+            x = _snap(m["Interval"]([f"chr{r[0] + 1}" for r in rows], np.array([r[1] for r in rows], dtype=int),
+                                    np.array([r[2] for r in rows], dtype=int)))
             geo = m["Geometry"](sizes)
             d = (geo.get_mask(x) if op == "geo_mask" else geo.get_pileup(x)).to_dict()
             return {"dict": [[int(v) for v in d[f"chr{i + 1}"].tolist()] for i in range(len(sizes))]}
@@ -514,10 +617,10 @@ def impl(c):
                 ch = ["chr1"] * n
                 z = c["sizes"][0] if len(set(c["sizes"])) <= 1 and n else np.array(c["sizes"], dtype=int)
             if op.endswith("clip"):
-                x = m["Interval"](ch, st, sp)
+                x = _snap(m["Interval"](ch, st, sp))
                 r = geo.clip(x) if op.startswith("geo") else iv.clip(x, z)
             else:
-                x = m["StrandedInterval"](ch, st, sp, ["+" if f else "-" for f in c["fwd"]])
+                x = _snap(m["StrandedInterval"](ch, st, sp, ["+" if f else "-" for f in c["fwd"]]))
                 r = geo.extend_to_size(x, c["len"]) if op.startswith("geo") else iv.extend_to_size(x, c["len"], z)
             return {"iv": _pairs(r)}
     except AssertionError:
@@ -571,6 +674,43 @@ def oracle(c):
         return {"iv": _runs([_cov(I, p) > 0 for p in range(size)], c["d"])}
     if op == "sort":
         return {"recs": sorted([list(r) for r in c["recs"]])}
+    if op == "seq":
+        I, size = c["iv"], c["size"]
+        if not _valid(I, size, empties=False) or I != sorted(I):
+            return SKIP
+        bits = [_cov(I, p) > 0 for p in range(size)]
+        return {"merges": [_runs(bits, d) for d in c["ds"]], "pileup": [_cov(I, p) for p in range(size)], "mask": bits,
+                "sorted": [[0, a, b] for a, b in sorted(map(tuple, I))]}
+    if op == "geo_seq":
+        merges = [[] for _ in c["ds"]]
+        pile, mask = [], []
+        for i, z in enumerate(c["chrom_sizes"]):
+            I = [(r[1], r[2]) for r in c["rows"] if r[0] == i]
+            if not _valid(I, z, empties=False):
+                return SKIP
+            bits = [_cov(I, p) > 0 for p in range(z)]
+            for k, d in enumerate(c["ds"]):
+                merges[k] += [[i, a, b] for a, b in _runs(bits, d)]
+            pile.append([_cov(I, p) for p in range(z)])
+            mask.append(bits)
+        return {"merges": merges, "pileup": pile, "mask": mask}
+    if op == "jaccard_matrix":
+        n = len(c["sets"])
+        out = [[0] * n for _ in range(n)]
+        for i in range(n):
+            for k in range(n):
+                if i != k:
+                    t = [0, 0, 0, 0]
+                    for ci, z in enumerate(c["sizes"]):
+                        A = [(r[1], r[2]) for r in c["sets"][i] if r[0] == ci]
+                        B = [(r[1], r[2]) for r in c["sets"][k] if r[0] == ci]
+                        if not (_valid(A, z) and _valid(B, z)):
+                            return SKIP
+                        t = [x + y for x, y in zip(t, _table(A, B, z))]
+                    if t[0] + t[1] + t[2] == 0:
+                        return SKIP
+                    out[i][k] = _bits(t[0] / (t[0] + t[1] + t[2]))
+        return {"bits": out}
     if op in PAIR_OPS:
         A, B, size = c["a"], c["b"], c["size"]
         if not (_valid(A, size) and _valid(B, size)):
@@ -627,7 +767,7 @@ def oracle(c):
 
 def agree(c, got, exp):
     op = c["op"]
-    if not isinstance(got, dict) or "err" in got:
+    if not isinstance(got, dict) or "err" in got or "mutated_arguments" in got:
         return False
     if op in ("pileup_events", "mask"):
         return got.get("dense") == exp["dense"]
@@ -647,6 +787,8 @@ def agree(c, got, exp):
 
 def finding_key(c, got, exp):
     op = c["op"]
+    if isinstance(got, dict) and "mutated_arguments" in got:
+        return f"{op}:modifies-its-argument-{'-'.join(got['mutated_arguments'])}"
     if isinstance(got, dict) and "err" in got:
         if op in ("jaccard", "forbes") and (not any(x["a"] for x in c["chroms"]) or not any(x["b"] for x in c["chroms"])):
             return f"{op}:empty-operand-raises-{got['err'].split(':')[-1]}"
